@@ -157,19 +157,22 @@ PROPS = {
         "level": "other",
         "property_obligations": ["ExternalEquivalenceTask::ensure_program_tightness", "ExternalEquivalenceTask::ensure_placeholder_name_uniqueness",
                                  "ExternalEquivalenceTask::ensure_specification_roles_are_supported", "ExternalEquivalenceTask::ensure_valid_formula_representation",
-                                 "UserGuide::placeholders"],
+                                 "UserGuide::placeholders", "ChecksTask::checks_block", "callsite_roles_checked_before_routing"],
         "carriers": [],
         "explanation": "Four of the nine applicability checks are proved exact on the real code (Verus): ensure_program_tightness refuses iff the program is not tight and --bypass-tightness is off, and accepts a non-tight "
                        "program only with a warning; ensure_placeholder_name_uniqueness refuses iff two declared placeholders (distinct name/sort pairs, via the real UserGuide::placeholders) share a name; "
                        "ensure_specification_roles_are_supported refuses iff some formula has a role other than assumption/spec/definition; ensure_valid_formula_representation refuses iff the representation is not tau-star. "
                        "NOT decided: Tightness::is_tight and PrivateRecursion::has_private_recursion themselves (petgraph, HashMap), the five checks built on set iterator chains "
-                       "(intersection/cloned/difference/filter), regularity (= C08), and that ExternalEquivalenceTask::decompose calls every check, with the right arguments, before emitting anything.",
+                       "(intersection/cloned/difference/filter), regularity (= C08). "
+                       "The call sites ARE decided: the block of ensure_* calls of ExternalEquivalenceTask::decompose is extracted as a statement fragment and proved (with stand-ins that record which check is applied to which "
+                       "arguments) to let a task through only if every documented check was made on the right object — in particular each program is checked for private recursion against ITS OWN private predicates — "
+                       "and the block precedes all translation and emission statements of decompose (it ends at the anchor `fn head_predicate`).",
         "assumptions": [
             "Tightness::is_tight is an uninterpreted function of the program here (petgraph is_cyclic_directed, HashMap): NOT verified",
             "PrivateRecursion::has_private_recursion: NOT verified",
             "ensure_absence_of_private_recursion, ensure_input_and_output_predicates_are_disjoint, ensure_rule_heads_do_not_contain_input_predicates, "
             "ensure_specification_assumptions_do_not_contain_output_predicates, ensure_assumptions_only_contain_input_symbols: NOT verified (iterator adapters over set operations)",
-            "the order and arguments of the ensure_* calls in ExternalEquivalenceTask::decompose: NOT verified",
+            "checks_block: D9 fragment of ExternalEquivalenceTask::decompose with the ensure_* methods as recording stand-ins; ensure_valid_formula_representation (first statement of decompose) and the computation of the private predicate sets precede the fragment and are not part of it",
         ],
         "not_covered": ["is_tight", "has_private_recursion", "5 of 9 ensure_* methods", "call sites in ExternalEquivalenceTask::decompose", "analyze --property"],
     },
@@ -278,11 +281,11 @@ PROPS = {
         "not_covered": ["termination", "cross-process determinism"],
     },
     "C07": {
-        "units": ["simp_int", "apply"],
+        "units": ["simp_int", "simp_cl", "apply"],
         "level": "other",
         "property_obligations": ["evaluate_comparisons", "apply_negation_definition_inverse", "apply_reverse_implication_definition",
                                  "apply_equivalence_definition_inverse", "remove_identities", "remove_annihilations", "remove_idempotences",
-                                 "remove_empty_quantifications", "Formula::apply", "Formula::apply_fixpoint",
+                                 "remove_empty_quantifications", "remove_double_negation", "extend_quantifier_scope", "lemma_scope_cl", "Formula::apply", "Formula::apply_fixpoint",
                                  "lemma_sapply_preserves_ht", "lemma_sapply_preserves_cl", "lemma_compose_preserves_ht", "lemma_compose_preserves_cl",
                                  "lemma_congruence_ht", "lemma_congruence_cl", "lemma_eval_comparisons", "lemma_link", "lemma_chain"],
         "carriers": [],
@@ -290,15 +293,16 @@ PROPS = {
                        "worlds, under every assignment; same classical truth value; no new free variables — for 8 of the 10 rewrites of the INTUITIONISTIC portfolio "
                        "(evaluate_comparisons incl. its loop, the three definition foldings, identities, annihilations, idempotences, empty quantifications), and the lifting of any "
                        "meaning-preserving operation through the real Apply::apply (recursive strategy), through composition, and through the real apply_fixpoint (fixpoint strategy). "
-                       "NOT under contract: remove_orphaned_variables and join_nested_quantifiers (iterator filter / Vec::sort+dedup: specs not derivable in this Verus), the whole CLASSIC "
-                       "portfolio (classic.rs), Compose::compose glue and the portfolio tables.",
+                       "Of the CLASSIC portfolio, remove_double_negation and extend_quantifier_scope are proved to preserve CLASSICAL meaning and free variables "
+                       "(preserves_cl; they are not HT-valid and the contract says so). NOT under contract: remove_orphaned_variables and join_nested_quantifiers (iterator filter / Vec::sort+dedup: specs not derivable in this Verus), "
+                       "substitute_defined_variables, restrict_quantifier_domain, simplify_transitive_equality (iterator chains, enumerate in nested loops, retain), Compose::compose glue and the portfolio tables.",
         "assumptions": [
             "Formula::conjoin/disjoin carry an ASSUMED contract (left-nested fold; body uses Iterator::reduce)",
             "remove_orphaned_variables, join_nested_quantifiers: NOT verified",
-            "classic.rs (remove_double_negation, substitute_defined_variables, restrict_quantifier_domain, extend_quantifier_scope, simplify_transitive_equality): NOT verified",
+            "classic.rs: substitute_defined_variables, restrict_quantifier_domain, simplify_transitive_equality: NOT verified",
             "Compose::compose (impl Fn over a cloned iterator) and the INTUITIONISTIC/HT/CLASSIC tables: not under contract; lemma_compose_preserves_* is the spec-level statement",
         ],
-        "not_covered": ["remove_orphaned_variables", "join_nested_quantifiers", "classic portfolio", "Compose::compose"],
+        "not_covered": ["remove_orphaned_variables", "join_nested_quantifiers", "substitute_defined_variables", "restrict_quantifier_domain", "simplify_transitive_equality", "Compose::compose"],
     },
 }
 
@@ -417,13 +421,15 @@ def run_property(pid, cfg, tier, seed, bless=False, t0=None):
         "wall_s": wall,
         "violations": len(violations),
     }
-    os.makedirs(os.path.join(VERIF, "evidence"), exist_ok=True)
-    json.dump(ev, open(os.path.join(VERIF, "evidence", f"{pid}.json"), "w"), indent=1)
+    evdir = os.environ.get("VERIF_EVIDENCE_DIR", os.path.join(VERIF, "evidence"))
+    os.makedirs(evdir, exist_ok=True)
+    json.dump(ev, open(os.path.join(evdir, f"{pid}.json"), "w"), indent=1)
     for f, k in known_hits:
         print(f"KNOWN-FINDING: property={pid} {k.get('what', f['obligation'])}")
     if violations:
-        os.makedirs(os.path.join(VERIF, "replays"), exist_ok=True)
-        rp = os.path.join(VERIF, "replays", f"{pid}.replay.txt")
+        rpdir = os.environ.get("VERIF_REPLAY_DIR", os.path.join(VERIF, "replays"))
+        os.makedirs(rpdir, exist_ok=True)
+        rp = os.path.join(rpdir, f"{pid}.replay.txt")
         with open(rp, "w") as fh:
             fh.write(f"property {pid}: failed obligations on the working tree of {vlib.REPO}\n")
             fh.write("No concrete failing input: Verus reports no counterexamples (no-failing-input-found).\n")
